@@ -28,6 +28,8 @@ func main() {
 		runC08(r)
 	case "C09":
 		runC09(r)
+	case "C17":
+		runC17(r)
 	default:
 		fmt.Println("chainmc: unknown property", os.Args[1])
 		os.Exit(2)
